@@ -92,7 +92,8 @@ def gen(r, fp: Dict[str, Any]) -> Dict[str, Any]:
     at = {"before_init_done": 0.05, "during_main": r.choice([0.6, 1.2]), "pool_full": 1.5}[inst]
     sc = {"fault_point": fp, "dispatcher": fp["dispatcher"], "max_concurrent": mc, "producers": producers,
           "handlers": handlers, "jobs": jobs, "idle": r.choice([0, 0, 1, 3]) if rt else 0,
-          "exit": fp["exit"], "exit_at": at, "stop_on_handler_exceptions": fp["exit"] == "handler_error"}
+          "exit": fp["exit"], "exit_at": at, "stop_on_handler_exceptions": fp["exit"] == "handler_error",
+          "custom_log_factory": r.random() < 0.4}
     if fp["exit"] == "handler_error":
         # no accidental failures before the designated one when stop-on-error is armed
         for hs in handlers:
@@ -331,6 +332,14 @@ class Run:
     # -------------------------------------------------------------------------------
     def execute(self):
         sc = self.sc
+        orig_factory = logging.getLogRecordFactory()
+        if sc.get("custom_log_factory"):
+            # an application may have its own record factory installed process-wide before the run
+            def tagging_factory(*a, **kw):
+                rec = orig_factory(*a, **kw)
+                rec.app_tag = "vf"
+                return rec
+            logging.setLogRecordFactory(tagging_factory)
         f0 = logging.getLogRecordFactory()
         wall0 = time.time()
         with vclock.virtual_time() as loop:
@@ -385,8 +394,11 @@ class Run:
             logging.getLogger("vf.c14.probe").warning("probe")
         except Exception as ex:
             self.log_problems.append(f"logging raises after the run: {type(ex).__name__}: {ex}")
+            if sc.get("custom_log_factory") and getattr(rec, "app_tag", None) != "vf":
+                self.log_problems.append("records created after the run no longer come from the factory that was "
+                                         "installed before it")
         finally:
-            logging.setLogRecordFactory(f0)
+            logging.setLogRecordFactory(orig_factory)
         return self
 
     # -------------------------------------------------------------------------------
@@ -412,6 +424,15 @@ class Run:
             if k != 1:
                 out.append(("finalize_count", f"producer {pid} finalised {k} times on exit path {sc['exit']} "
                                               f"(producer failing in {sc['fault_point']['producer_fail']}); phases {by_pid[pid]}"))
+        # ... and the finalisation is over when run() hands control back (not left running detached)
+        if not self.double_fault and self.cancel_requested_at is None:
+            for pid in range(n):
+                phs = [ph for t, ph in by_pid[pid]]
+                if "fin_start" in phs and not any(p in ("fin_end", "fin_raised") for p in phs):
+                    out.append(("finalize_not_completed",
+                                f"run() ended at {self.ended_at}s while producer {pid}'s finalize() was still running "
+                                f"(phases {by_pid[pid][-3:]}; another producer failing in "
+                                f"{sc['fault_point']['producer_fail']})"))
         # finalize only after the producer's main is over
         for pid in range(n):
             phs = [ph for t, ph in by_pid[pid]]
